@@ -12,4 +12,4 @@ from pyvc.check import standin_bounded
 from pyvc.check import external_bounded
 BOUNDED = [standin_bounded("C05"),
            external_bounded("deep-schema:C05", "standin.deep", ["C05", "--n", "150"], ["C05", "--n", "800"],
-                            "twin classes (same shape, different meaning) in both first-use orders: JSON round trip")]
+                            "nested schema + twin classes: our JSON read by the reference, the reference JSON read by us")]
